@@ -407,9 +407,10 @@ def check_case(mode, f, libs, X, order, s="", topo="L2", first="name", how="befo
                     x = ct.item if path == "item" else dict(ct.fields)[path].type
                     ref = f[1].typeof(exp)
                 except Exception as e:
-                    if i == 1:
-                        raise InfraError("the declaring FFI cannot look into %r: %s" % (T, _err(e)))
-                    bad.append(("not_visible", kind, "ffi%d: %s of %r: %s" % (i, path, T, _err(e))))
+                    # (through the declaring FFI itself this happens when its struct lost its fields: in-line, after an
+                    # earlier including FFI was collected)
+                    bad.append(("layout" if i == 1 else "not_visible", kind,
+                                "ffi%d: %s of %r: %s" % (i, path, T, _err(e))))
                     continue
                 if x is not ref:
                     bad.append(("identity", kind, "ffi%d: %s of %r is not ffi1's %r [%s]" % (i, path, T, exp, x.cname)))
@@ -1015,7 +1016,7 @@ def run(ctx):
     n_na = sum(1 for k in KINDS for u in USAGES if not applicable(k, u))
     ctx.count("kind_x_usage.not_applicable", n_na)
     cheap = [c for c in space if c[0] != "api"]
-    aitems = api_items(space, 150 if ctx.quick else 400)
+    aitems = api_items(space, 500 if ctx.quick else 1500)
     n_api = sum(1 for c in space if c[0] == "api")
     n_api_du = sum(len(it[1]) for it in aitems)
     # numbered anonymous structs ('$1', ...) declared by several FFIs of an include chain
